@@ -46,7 +46,38 @@ def pretty(step):
     return o
 
 
-LOST = {"post": "post-lost", "mkcat": "create-lost", "mkbundle": "create-lost", "delart": "delete-lost", "delitem": "delete-lost",
+def path_class(path):
+    """Where the 4096-byte start buffer of the path decoder (bufio.Scanner) ends relative to the items of a news path
+    given as run-length names: '' (path data fits), 'header-split-N' (N = 0..2 bytes of an item header before the
+    buffer end: the decoder asks for more data), 'item-straddles-buffer' (an item with at least its 3 header bytes
+    in the buffer continues beyond it)."""
+    lens = [sum(p[1] for p in name) for name in (path or [])]
+    total = sum(3 + n for n in lens)
+    if total <= 4096:
+        return ""
+    s, e, cls = 0, 4096, ""
+    for n in lens:
+        while True:
+            avail = e - s
+            if avail < 3 and e < total:
+                cls = cls or "header-split-%d" % avail
+                e = min(total, s + 4096)
+                continue
+            break
+        if 3 + n > e - s and e < total:
+            return "item-straddles-buffer"
+        s += 3 + n
+    return cls or "beyond-buffer"
+
+
+def deep_suffix(paths):
+    cl = sorted({c for c in (path_class(p) for p in paths) if c})
+    if not cl:
+        return ""
+    return "/news-path>4KiB:" + ("item-straddles-buffer" if cl == ["item-straddles-buffer"] else "+".join(cl))
+
+
+LOST = {"get": "read-lost", "list": "read-lost", "cats": "read-lost", "post": "post-lost", "mkcat": "create-lost", "mkbundle": "create-lost", "delart": "delete-lost", "delitem": "delete-lost",
         "reload": "reload-lost"}
 
 
@@ -59,8 +90,14 @@ def sigs_of(rec, script=None):
             before = (script or {}).get("steps", [])[:max((rec.get("k") or 1) - 1, 0)]
             after_reload = any(x.get("op") == "reload" for x in before)
             how = "panic" if "panicked" in det.get("how", "") else "unanswered"
-            sig = "C18/%s/%s%s" % (LOST.get(rec.get("op"), "step-lost"), how, "/after-reload" if after_reload else "")
+            sig = "C18/%s/%s%s%s" % (LOST.get(rec.get("op"), "step-lost"), how, "/after-reload" if after_reload else "",
+                                      deep_suffix([(rec.get("step") or {}).get("path")]))
             out.append((sig, {"kind": f, "detail": det}))
+            continue
+        if f == "unread":
+            d = sorted(det.get("unread", []), key=json.dumps)
+            how = "panic" if all("closed" in x.get("how", "") for x in d) else "unanswered"
+            out.append(("C18/read-lost/observation/%s%s" % (how, deep_suffix([x.get("path") for x in d])), {"kind": f, "detail": d}))
             continue
         if f == "list":
             d = det.get("list", {})
